@@ -23,7 +23,10 @@ from pyvc.lemma import LEMMAS  # noqa
 
 
 def stable_key(name):
-    return re.sub(r'/path[0-9]+/', '/', name)
+    # path numbers vary with the exploration order; a loop is identified by its static position, not by its text (an edit of the
+    # guard or of the loop variable keeps the key)
+    name = re.sub(r'/path[0-9]+/', '/', name)
+    return re.sub(r'/loop\[#(\d+) .*?\]/(entry|preserve|variant)', r'/loop[#\1]/\2', name)
 
 
 def load_contracts(src):
@@ -149,7 +152,18 @@ def selftest():
     return 0 if ok and len(contract.REGISTRY) > 50 else 3
 
 
+def _protect_std_streams():
+    """native replay runs the real library, which may close file descriptors it was (wrongly) handed: keep private copies of
+    stdout / stderr so that the verdict can always be printed"""
+    try:
+        sys.stdout = os.fdopen(os.dup(1), 'w', buffering=1)
+        sys.stderr = os.fdopen(os.dup(2), 'w', buffering=1)
+    except OSError:
+        pass
+
+
 def main(argv=None):
+    _protect_std_streams()
     if argv is None and '--selftest' in sys.argv:
         return selftest()
     ap = argparse.ArgumentParser()
@@ -512,6 +526,16 @@ def conclude(pid, P, tier, seed, a, t0, src, results, oor, stats, functions, ext
                     continue
             undecided.append('UNDECIDED property=%s obligation=%s (%s)' % (pid, r.name, r.result.solver))
     oor_done = set()
+    # a function that can no longer be executed matters to THIS property only if it contributed obligations to it on the unchanged
+    # tree (the lock knows) or carries the property's tag; every function is executed for every property (obligations are selected
+    # by tag afterwards), so without this filter one undecided function would make all seventeen checks undecided
+    def _relevant(q):
+        if q.startswith('ghost:') or not locked:
+            return True
+        fname = q.split(':')[-1]
+        c = contract.REGISTRY.get(q)
+        return any(('/%s/' % fname) in k for k in locked) or (c is not None and pid in (c.tags or ()) and not c.generic)
+    oor = [x for x in oor if _relevant(x[0])]
     for q, m, why in oor:
         # a function that was verified on the unchanged tree (its obligations are in the lock) and can no longer be executed
         # symbolically: its contract is still evaluated NATIVELY on the real code; an input on which a clause is false is a violation
